@@ -35,7 +35,7 @@ CLASSES = {
     # a Logon asking for a sequence reset: an integrity defect is a defect all the same (34=1 with it is the legitimate reset: left out)
     "logonr": ("A", [(98, 0), (108, 30), (141, "Y")]),
 }
-DEFECTS = ["sender-missing", "target-missing", "sender-wrong", "target-wrong", "swapped", "both-missing", "seq-missing", "seq-too-low", "seq-one",
+DEFECTS = ["sender-missing", "target-missing", "sender-wrong", "target-wrong", "sender-case", "target-case", "swapped", "both-missing", "seq-missing", "seq-too-low", "seq-one",
            "beginstring-42", "beginstring-fixt"]
 ORDERS = ["std", "seq-first", "ids-last"]
 
@@ -374,6 +374,10 @@ def defect_frame(d, cls, s, E_, order, possdup=False):
         target = None
     elif d == "both-missing":
         sender = target = None
+    elif d == "sender-case":
+        sender = "Peer"            # CompIDs are case-sensitive: another spelling is another party
+    elif d == "target-case":
+        target = "me"
     elif d == "sender-wrong":
         sender = "OTHER"
     elif d == "target-wrong":
